@@ -9,21 +9,19 @@
     Safety/Imported.v about that area's model): object streams (ObjStm, C11), cross-reference streams (XRef, C02),
     CID /W and Type0 (Font, C19), page counts (PageTree, C07), predictor geometry / every decoder (Codec, C05),
     crypt key length (Crypt, C06), importer over cyclic graphs (Import, C20), guard keyed by thread (Cache, C13).
-    Where the code as it is can still panic, the theorem states the exact class and a […_refuted] theorem gives the
-    witness that is replayed on the real code (fax geometry only).
+    No site of this area is excluded any more: [C14_full] proves [C14_full_statement] (fax_decode was repaired).
     Only statements, each closed by [exact]. *)
 From PdfV Require Import Base.Prelude Gen.Generated Lex.Lexer
   Safety.Front Safety.FrontProofs Safety.Numeric Safety.NumericProofs Safety.Walks Safety.WalksProofs Safety.Imported.
 From PdfV Require Codec.Model Codec.Dispatch Codec.Pairing Codec.ChainProofs ObjStm.Model ObjStm.Proofs XRef.Model XRef.StreamProofs
   Font.Model Font.WidthProofs PageTree.Model PageTree.Proofs Crypt.Model Crypt.SafeProofs Import.Model Import.Theorems Cache.Tables.
 
-(** the full claim for the numeric sites of this area; false of the code as it is (fax geometry, C14-j) *)
+(** the full claim for the numeric sites of this area; it holds of the code as it is (C14_full) *)
 Definition C14_full_statement : Prop :=
   (forall rnd ops st, never_crashes (ps_exec rnd ops st)) /\
   (forall domain_len range_len c0_len c1_len, never_crashes (fn2_load domain_len range_len c0_len c1_len)) /\
   (forall items, never_crashes (differences items)) /\
-  (forall columns rows, columns < U32 -> rows < U32 -> never_crashes (fax_capacity columns rows)) /\
-  (forall buf_len columns, never_crashes (fax_check buf_len columns)).
+  (forall k columns rows decoded, columns < U32 -> rows < U32 -> never_crashes (fax_decode k columns rows decoded)).
 
 (** 1. recursion guard (file.rs: StorageResolver::get): on every finite graph closed under "refers to", from every
     node, whether errors propagate or are swallowed: terminates with recursion depth <= |graph| + 1, the drop-guard
@@ -161,29 +159,39 @@ Theorem C14_guard_per_thread : cache_chain_per_thread = true.
 Proof. exact Cache.Tables.chain_table. Qed.
 Print Assumptions C14_guard_per_thread.
 
-(** 5. fax geometry (enc.rs: fax_decode — unchanged code, open C14-j): exactly the stated class panics *)
-Theorem C14_fax_capacity : forall columns rows, columns < U32 -> rows < U32 ->
-  (columns * rows <= ISIZE_MAX -> fax_capacity columns rows = Ok (columns * rows)) /\
-  (ISIZE_MAX < columns * rows -> fax_capacity columns rows = Panic 1002).
-Proof. exact fax_capacity_sites. Qed.
-Print Assumptions C14_fax_capacity.
-Theorem C14_fax_refuted : fax_capacity 4294967295 4294967295 = Panic 1002 /\ fax_check 0 0 = Panic 1003 /\
-  forall buf_len columns, 0 < columns -> fax_check buf_len columns = Ok (buf_len mod columns).
-Proof. exact fax_refuted. Qed.
-Print Assumptions C14_fax_refuted.
+(** 5. CCITTFaxDecode (enc.rs: fax_decode, repaired — the former C14-j / C01-h): /K, /Columns, /Rows over the whole i32 / u32
+    range and ANY behaviour of the external decoder (which lines it delivers, or that it gives up): a value or an error.
+    /Columns 0, /Columns or /Rows beyond 65535, K >= 0 are error values ([C14_fax_examples]). *)
+Theorem C14_fax_total : forall k columns rows decoded, columns < U32 -> rows < U32 ->
+  never_crashes (fax_decode k columns rows decoded).
+Proof. exact fax_decode_total. Qed.
+Print Assumptions C14_fax_total.
+(** with a declared height the result has exactly columns * rows bytes — at most 65535 * 65535, whatever the data says *)
+Theorem C14_fax_bounded : forall k columns rows decoded len, fax_decode k columns rows decoded = Ok len -> rows <> 0 ->
+  len = columns * rows /\ len <= 65535 * 65535.
+Proof. exact fax_decode_bounded. Qed.
+Print Assumptions C14_fax_bounded.
+Example C14_fax_examples :
+  fax_decode (-1) 8 2 (Some [8; 8]) = Ok 16 /\ fax_decode (-1) 0 0 (Some []) = Err E_NUM /\
+  fax_decode (-1) 65536 1 (Some []) = Err E_NUM /\ fax_decode (-1) 8 65536 (Some []) = Err E_NUM /\
+  fax_decode 0 8 1 (Some [8]) = Err E_NUM /\ fax_decode (-1) 4294967295 4294967295 None = Err E_NUM /\
+  fax_decode (-1) 8 0 (Some [8; 7]) = Err E_NUM /\ fax_decode (-1) 8 0 (Some [8; 8; 8]) = Ok 24.
+Proof. exact fax_decode_examples. Qed.
 
-Theorem C14_full_statement_refuted : ~ C14_full_statement.
-Proof.
-  intros H. destruct H as (_ & _ & _ & _ & H). destruct (H 0 0) as [Hp _].
-  apply (Hp 1003). exact (proj1 (proj2 fax_refuted)).
-Qed.
-Print Assumptions C14_full_statement_refuted.
+(** every numeric site of this area: no exclusion is left *)
+Theorem C14_full : C14_full_statement.
+Proof. exact (conj ps_exec_total (conj fn2_load_total (conj differences_never_crashes fax_decode_total))). Qed.
+Print Assumptions C14_full.
 
 (** generated guards and budgets (table lemmas): a change of the guards in the source changes these terms *)
 Theorem C14_guards_in_source :
   ps_roll_len_guard = 1 /\ ps_roll_mod_guard = 1 /\ ps_index_guard = 1 /\ ps_parse_get = 1 /\ diff_wrapping = 1.
 Proof. exact guards_table. Qed.
 Print Assumptions C14_guards_in_source.
+Theorem C14_fax_guards_in_source :
+  fax_k_guard = 1 /\ fax_columns_guard = 1 /\ fax_rows_guard = 1 /\ fax_no_assert = 1 /\ fax_no_capacity = 1.
+Proof. exact fax_guards_table. Qed.
+Print Assumptions C14_fax_guards_in_source.
 Theorem C14_budgets_in_source : (0 <? tree_depth) = true /\ (0 <? cs_depth) = true.
 Proof. exact depth_table. Qed.
 Print Assumptions C14_budgets_in_source.
